@@ -171,7 +171,7 @@ func (p *Path) lastErr() string {
 		p.s.Errors = nil
 		return e
 	}
-	return "unknown/timeout"
+	return "unknown/timeout " + p.s.LastReason
 }
 
 func (p *Path) assume(c *Term) {
